@@ -337,7 +337,7 @@ pub fn main_c13(tier: &str, seed: u64, replay: Option<&str>) -> i32 {
     let mut ev = Evidence::new("C13", tier, seed, "exploration");
     ev.evaluations = (placements.len() * n_hash) as u64;
     ev.distinct_nontrivial = placements.len() as u64;
-    ev.rule = "E2 part: one evaluation = one in-process option resolution (Opt::from_args_and_git_config with a constructed DeltaEnv and a --config file, Config::from, show_config into a buffer) on a fresh thread whose hash keys derive from the run's seed; placements = the pair lattice (both construction orders), every unordered triple of the 30 source kinds for each of 11 probes (quick: every fifth), seeded deeper placements, and a wide-but-shallow part: every single custom source kind and every unordered pair of the 10 custom kinds for each of the 72 other options that the set_options! list makes settable in gitconfig, observed as the field of the resolved `Opt`; same reference model as the E1 part. distinct_nontrivial = placements.".into();
+    ev.rule = "E2 part: one evaluation = one in-process option resolution (Opt::from_args_and_git_config with a constructed DeltaEnv and a --config file, Config::from, show_config into a buffer) on a fresh thread whose hash keys derive from the run's seed; placements = the pair lattice (both construction orders), every unordered triple of the 30 source kinds for each of 13 probes (quick: every fifth), seeded deeper placements, and a wide-but-shallow part: every single custom source kind and every unordered pair of the 10 custom kinds for each of the 70 other options that the set_options! list makes settable in gitconfig, observed as the field of the resolved `Opt`; same reference model as the E1 part. distinct_nontrivial = placements.".into();
     ev.counters.insert("placements".into(), placements.len() as u64);
     ev.counters.insert("lattice_pairs_and_singles".into(), n_lattice as u64);
     ev.counters.insert("triple_placements".into(), n_triples as u64);
